@@ -15,7 +15,7 @@ pub fn prop() -> Prop {
     Prop {
         id: "C13",
         level: "exploration",
-        rule: "(1) all sequences up to depth d of array/string operations over three names: declare an array (length 0-3) or a string (0-3 characters drawn from 1-, 2-, 3- and 4-byte code points), alias, nest, read at the boundary indices, write, lengte, pass to a function that writes, each followed by a dump of every name through every alias, rendered as one program and compared with the reference interpreter; (2) the complete index sweep: every length 0..6 x every index -(len+2)..(len+2) x {get, set, set with a wrong-typed value, failed access followed by a re-read of every element} on arrays and on strings of every character-width mix; every value type as index and as stored value; (2c) strings through a function one after the other (pairs of different strings of the same length class, wide characters before the indices); the sweep, the ladders, this family and the self-consistency family run TWICE, with the shadow heap and without it (freed memory is then really reused); (2b) length ladders: strings and arrays of every length around each power of two up to 257, strings in every pattern 'ASCII with one 2-, 3- or 4-byte character at position p' and all-wide: every index read from the front and the back in a loop, writes around the wide character and at both ends dumped through an alias; (3) self-consistency where the model is silent (an element of a string replaced by zero or several characters, 16 strings x every index x 9 replacements x a second replacement): the printed text, lengte and character-by-character reading from both ends must describe the same string and the first index outside it must be refused. Non-trivial = the program performs at least one indexed access and is defined by the model; distinct = distinct texts",
+        rule: "(1) all sequences up to depth d of array/string operations over three names: declare an array (length 0-3) or a string (0-3 characters drawn from 1-, 2-, 3- and 4-byte code points), alias, nest, read at the boundary indices, write, lengte, pass to a function that writes, each followed by a dump of every name through every alias, rendered as one program and compared with the reference interpreter; (2) the complete index sweep: every length 0..6 x every index -(len+2)..(len+2) x {get, set, set with a wrong-typed value, failed access followed by a re-read of every element} on arrays and on strings of every character-width mix; every value type as index and as stored value; (2d) ~5 000 code points, each as the middle character of a string: measured, read from both ends, replaced, written back; (2c) strings through a function one after the other (pairs of different strings of the same length class, wide characters before the indices); the sweep, the ladders, this family and the self-consistency family run TWICE, with the shadow heap and without it (freed memory is then really reused); (2b) length ladders: strings and arrays of every length around each power of two up to 257, strings in every pattern 'ASCII with one 2-, 3- or 4-byte character at position p' and all-wide: every index read from the front and the back in a loop, writes around the wide character and at both ends dumped through an alias; (3) self-consistency where the model is silent (an element of a string replaced by zero or several characters, 16 strings x every index x 9 replacements x a second replacement): the printed text, lengte and character-by-character reading from both ends must describe the same string and the first index outside it must be refused. Non-trivial = the program performs at least one indexed access and is defined by the model; distinct = distinct texts",
         assumptions: &["string aliasing and non-character replacement are unspecified (U8) and excluded", "reference semantics of arrays and code-point indexing of strings as in refint (DESIGN 4.2)"],
         run,
         replay,
@@ -528,8 +528,36 @@ fn strings_one_after_the_other(sh: &mut Shard) {
     }
 }
 
+/// Every code point of the C08 list as the middle character of a three-character string: it is ONE character
+/// for `lengte`, for reading from both ends and for replacement, whatever its width or purpose.
+fn code_point_sweep(sh: &mut Shard) {
+    for c in super::c08::code_points() {
+        if c == '"' || c == '\\' || c == '\n' || c == '\r' {
+            continue;
+        }
+        if !sh.mine() {
+            continue;
+        }
+        let prog = vec![
+            let_("s", string(&format!("a{c}b"))),
+            es(calln("print", vec![string("{} {} {} {}"), calln("lengte", vec![id("s")]), infix(index(id("s"), int(1)), Operator::Eq, string(&c.to_string())), infix(index(id("s"), int_lit(-2)), Operator::Eq, string(&c.to_string())), infix(index(id("s"), int(2)), Operator::Eq, string("b"))])),
+            es(assign(index(id("s"), int(1)), string("x"))),
+            es(assign(index(id("s"), int(0)), string(&c.to_string()))),
+            es(array(vec![calln("lengte", vec![id("s")]), infix(id("s"), Operator::Eq, string(&format!("{c}xb"))), calln("lengte", vec![string(&format!("{c}{c}"))])])),
+        ];
+        sh.begin(&|| format!("code point U+{:04X}", c as u32));
+        sh.count("family:code-points");
+        if let Some(r) = differential(sh, "sweep", &prog, opts()) {
+            if !matches!(r.model.end, End::Unspec(_) | End::Diverge) {
+                sh.nontrivial(&(c as u32));
+            }
+        }
+    }
+}
+
 fn run(sh: &mut Shard) {
     let tier = sh.cfg.tier;
+    code_point_sweep(sh);
     // second pass first: the cheap families again without the shadow heap (real address reuse)
     LEDGER.with(|c| c.set(false));
     strings_one_after_the_other(sh);
@@ -569,7 +597,7 @@ fn replay(sh: &mut Shard, case: &Value) {
 }
 
 fn vacuity(m: &Merged) -> Option<String> {
-    for fam in ["sweep", "sweep-types", "one-after-the-other", "length-ladder", "self-consistency", "sequences"] {
+    for fam in ["sweep", "sweep-types", "code-points", "one-after-the-other", "length-ladder", "self-consistency", "sequences"] {
         if m.counters.get(&format!("family:{fam}")).copied().unwrap_or(0) < 100 {
             return Some(format!("family {fam} produced fewer than 100 cases"));
         }
